@@ -439,7 +439,7 @@ func runC11(w *azWorld) {
 				typ += string(ch)
 			}
 		}
-		ttl := []int{0, 20, 200}[t.Choose(3)]
+		ttl := []int{0, 20, 200, -30}[t.Choose(4)] // a negative ttl asks for a key that has already expired
 		var chanLv []string
 		chanStr := ""
 		badChan := false
@@ -537,14 +537,14 @@ func runC11(w *azWorld) {
 			c.Check("identity", "fields", "derived key does not keep the parent's contract / signature / master id")
 		}
 		wantExp := int64(0)
-		if ttl > 0 {
+		if ttl != 0 {
 			wantExp = reqAt.Unix() + int64(ttl)
 		}
 		gotExp := int64(0)
 		if !k.Expires().Equal(time.Unix(0, 0).UTC()) {
 			gotExp = k.Expires().Unix()
 		}
-		if gotExp != wantExp && !(ttl > 0 && gotExp-wantExp >= 0 && gotExp-wantExp <= 1) {
+		if gotExp != wantExp && !(ttl != 0 && gotExp-wantExp >= 0 && gotExp-wantExp <= 1) {
 			c.Check("expiry", fmt.Sprintf("ttl=%d", ttl), "derived key expires at %d, requested ttl %d at simulated second %d", gotExp, ttl, reqAt.Unix())
 		}
 		// target: exactly the requested channel (extension: channel + connection id)
@@ -570,6 +570,20 @@ func runC11(w *azWorld) {
 			}
 		}
 		ki := &model.KeyInfo{Name: "derived", Key: r.Key, Decrypts: true, Contract: true, Perms: k.Permissions(), Target: wantTarget}
+		if ttl < 0 {
+			if staticUse && (w.subscribeOK(cl, r.Key, useLv) || w.publishOK(cl, r.Key, useLv)) {
+				c.Check("expiry", "negative-ttl", "a key requested with ttl %d (already expired) is accepted", ttl)
+			}
+			continue
+		}
+		if k.Permissions()&security.AllowExtend != 0 && k.Permissions()&security.AllowRead != 0 {
+			// also with wildcard channels inside its target
+			for _, wl := range [][]string{append(append([]string(nil), useLv...), "+"), append(append([]string(nil), useLv[:len(useLv)-1]...), "+")} {
+				if model.Covers(wantTarget, wl) && w.subscribeOK(cl, r.Key, wl) {
+					c.Check("ext-use", "wildcard-subscribe", "a key with the extend permission was accepted for a subscription on %s", model.Join(wl))
+				}
+			}
+		}
 		if staticUse {
 			if k.Permissions()&security.AllowExtend != 0 {
 				// an extendable key cannot itself be used to publish or subscribe
